@@ -11,7 +11,7 @@ C14_COLOURS = "[style.colors]\nprimary = \"#000000\"\nerror = \"#FFfe01\"\nhighl
 PROPS = {
     "C01": {
         "timeouts_not_mine": True,
-        "lean_modules": ["Props.Clean", "Props.Cells", "Props.Facts19", "Props.C01p", "Props.Gen01p", "Props.GenT01p"],
+        "lean_modules": ["Props.Clean", "Props.Cells", "Props.Facts19", "Props.C01p", "Props.Gen01p", "Props.GenT01p", "Props.Gen15h", "Props.GenT15h"],
         "groups": [{"name": "render", "quick": 2500, "thorough": 60000}, {"name": "C01misc", "quick": 2000, "thorough": 60000},
                    {"name": "C14", "quick": 1500, "thorough": 40000}, {"name": "C06", "quick": 1200, "thorough": 30000, "workers": 12},
                    {"name": "present", "quick": 800, "thorough": 20000, "workers": 12},
@@ -28,7 +28,7 @@ PROPS = {
     },
     "C12": {
         "timeouts_not_mine": True,
-        "lean_modules": ["Props.C20b", "Props.Gen20", "Props.GenT20", "Props.Gen12", "Props.GenT12", "Props.Gen15", "Props.GenT15"],
+        "lean_modules": ["Props.C20b", "Props.Gen20", "Props.GenT20", "Props.Gen12", "Props.GenT12", "Props.Gen15", "Props.GenT15", "Props.Gen15h", "Props.GenT15h"],
         # which link a typed number opens (and what a failing or slow hook leaves of the number being typed) is what the interface model says
         "correspondence_is_failure": {"ui": True},
         "groups": [{"name": "render", "quick": 3000, "thorough": 80000}, {"name": "mediaL", "quick": 600, "thorough": 20000, "workers": 12},
@@ -48,7 +48,7 @@ PROPS = {
     },
     "C14": {
         "timeouts_not_mine": True,
-        "lean_modules": ["Props.Cells", "Props.Clean", "Props.C01p", "Props.Gen14", "Props.Gen13", "Props.GenT13"],
+        "lean_modules": ["Props.Cells", "Props.Clean", "Props.C01p", "Props.Gen14", "Props.Gen13", "Props.GenT13", "Props.Gen15h", "Props.GenT15h"],
         "groups": [{"name": "C14", "quick": 3000, "thorough": 80000}, {"name": "render", "quick": 1200, "thorough": 30000},
                    # the same under configured colours (what style.Color/Red/Code/Highlight read is the configuration, not a constant)
                    {"name": "C14", "quick": 1500, "thorough": 40000, "workers": 6, "config": C14_COLOURS},
@@ -80,6 +80,7 @@ PROPS = {
         "shrink_budget": 3,
     },
     "C06": {
+        "lean_modules": ["Props.Gen15h", "Props.GenT15h"],
         "groups": [{"name": "C06", "quick": 1500, "thorough": 40000, "workers": 12}, {"name": "renderdeep", "quick": 192, "thorough": 8000, "workers": 12},
                    {"name": "render", "quick": 800, "thorough": 20000}, {"name": "presentP", "quick": 800, "thorough": 20000, "workers": 12},
                    # asking for an item's children in several steps (continuations, offsets into a page): every step returns
@@ -341,7 +342,7 @@ PROPS = {
     },
     "C15": {
         "timeouts_not_mine": True,
-        "lean_modules": ["Props.C13s", "Props.Gen15", "Props.GenT15"],
+        "lean_modules": ["Props.C13s", "Props.Gen15", "Props.GenT15", "Props.Gen15h", "Props.GenT15h"],
         "groups": [{"name": "render", "quick": 2500, "thorough": 60000},
                    # documents rendered from several goroutines at once
                    {"name": "renderpar", "quick": 40, "thorough": 1500, "workers": 4},
